@@ -9,8 +9,8 @@ case = {k: v for k, v in case.items() if k != "impl"}
 case.setdefault("id", 0)
 tmp = tempfile.mkdtemp(prefix="replay_many_")
 inp = os.path.join(tmp, "case.json"); json.dump(case, open(inp, "w"))
-binp = f"/verif/harness/target/debug/{prop.lower()}"
-drv = f"/verif/lean/.lake/build/bin/drv_{prop.lower()}"
+binp = os.environ.get("REPLAY_BIN_DIR", "/verif/harness/target/debug") + "/" + ("c01" if prop.lower() in ("c02", "c03") else prop.lower())
+drv = "/verif/lean/.lake/build/bin/drv_" + ("c01" if prop.lower() in ("c02", "c03") else prop.lower())
 cnt = collections.Counter()
 for i in range(n):
     out = os.path.join(tmp, f"o{i}.jsonl")
